@@ -1,10 +1,48 @@
 use crate::trace::Args;
 
 pub mod c07_montgomery;
+pub mod c01;
+pub mod c02;
+pub mod c03;
+pub mod c04;
+pub mod c05;
+pub mod c06;
+pub mod c08;
+pub mod c09;
+pub mod c10;
+pub mod c11;
+pub mod c12;
+pub mod c13;
+pub mod c14;
+pub mod c15;
+pub mod c16;
+pub mod c17;
+pub mod c18;
+pub mod c19;
+pub mod c20;
 
 pub fn dispatch(name: &str, args: &Args) -> i32 {
     match name {
         "c07" => c07_montgomery::run(args),
+        "c01" => c01::run(args),
+        "c02" => c02::run(args),
+        "c03" => c03::run(args),
+        "c04" => c04::run(args),
+        "c05" => c05::run(args),
+        "c06" => c06::run(args),
+        "c08" => c08::run(args),
+        "c09" => c09::run(args),
+        "c10" => c10::run(args),
+        "c11" => c11::run(args),
+        "c12" => c12::run(args),
+        "c13" => c13::run(args),
+        "c14" => c14::run(args),
+        "c15" => c15::run(args),
+        "c16" => c16::run(args),
+        "c17" => c17::run(args),
+        "c18" => c18::run(args),
+        "c19" => c19::run(args),
+        "c20" => c20::run(args),
         _ => {
             eprintln!("unknown driver {}", name);
             2
